@@ -593,6 +593,12 @@ func (r *c15Run) customParams() {
 	} else {
 		period := time.Duration(1+r.rng.IntN(20)) * 24 * time.Hour
 		quorum := fmt.Sprintf("0.%02d", 10+r.rng.IntN(60))
+		switch r.rng.IntN(6) {
+		case 0:
+			quorum = "0" // boundary values the validation accepts: no quorum at all ...
+		case 1:
+			quorum = "1" // ... and everybody has to vote
+		}
 		ratio := "0"
 		if cl == "egf" {
 			ratio = fmt.Sprintf("0.%02d", 5+r.rng.IntN(30))
